@@ -603,6 +603,54 @@ func xlateCase(c *vlib.Cases, tr *anthropic.Translator, body []byte, stream bool
 	c.Emit(map[string]any{"kind": "xlate", "stream": stream, "how": how, "body_hex": hexCap(body), "impl": map[string]any{"guard": g, "outcome": outcome}})
 }
 
+// genStream: a chat-completion stream put together from the grammar of what backends send — text deltas, tool calls
+// opened (id + name) under an index and continued by argument fragments under that index, a finish chunk, usage, [DONE] —
+// and from what broken backends leave out or reorder: fragments for an index that was never opened (the opening chunk
+// lost), indices that skip, fragments that do not add up to JSON, no text before the tools, no finish, no [DONE].
+// All streams go through ONE translator, one after the other: what an earlier stream opened must not matter to a later one.
+func genStream(r *vlib.Rng) []byte {
+	var b bytes.Buffer
+	ev := func(delta string, extra string) {
+		fmt.Fprintf(&b, "data: {\"id\":\"c\",\"model\":\"m\",\"choices\":[{\"index\":0,\"delta\":%s%s}]}\n\n", delta, extra)
+	}
+	if r.Chance(2, 3) {
+		ev(`{"role":"assistant","content":""}`, "")
+	}
+	for n := r.Intn(3); n > 0; n-- {
+		ev(fmt.Sprintf(`{"content":"t%d"}`, r.Intn(100)), "")
+	}
+	idx := 0
+	for k := r.Intn(4); k > 0; k-- {
+		if r.Chance(1, 4) {
+			idx += 1 + r.Intn(3) // indices that skip
+		}
+		if !r.Chance(1, 4) { // the opening chunk; sometimes lost
+			ev(fmt.Sprintf(`{"tool_calls":[{"index":%d,"id":"call_%d","type":"function","function":{"name":"f%d","arguments":""}}]}`, idx, idx, idx), "")
+		}
+		args := vlib.Pick(r, []string{`{"a":1}`, `{}`, `{"q":"x y","n":[1,2]}`, `{"a":`, `nonsense`, ``})
+		for len(args) > 0 {
+			cut := 1 + r.Intn(len(args))
+			frag, _ := json.Marshal(args[:cut])
+			ev(fmt.Sprintf(`{"tool_calls":[{"index":%d,"function":{"arguments":%s}}]}`, idx, frag), "")
+			args = args[cut:]
+		}
+		idx++
+		if r.Chance(1, 5) {
+			ev(fmt.Sprintf(`{"content":"between%d"}`, r.Intn(10)), "")
+		}
+	}
+	if !r.Chance(1, 8) {
+		ev(`{}`, fmt.Sprintf(`,"finish_reason":"%s"`, vlib.Pick(r, []string{"stop", "tool_calls", "length"})))
+	}
+	if r.Bool() {
+		b.WriteString("data: {\"choices\":[],\"usage\":{\"prompt_tokens\":3,\"completion_tokens\":4,\"total_tokens\":7}}\n\n")
+	}
+	if !r.Chance(1, 8) {
+		b.WriteString("data: [DONE]\n\n")
+	}
+	return b.Bytes()
+}
+
 // ---------------------------------------------------------------- relays through the running stack
 
 // relayCase: a backend answers a proxied / translated request with an arbitrary status and an arbitrary
@@ -869,6 +917,13 @@ func main() {
 		xlateCase(c, tr, mutate(r, vlib.Pick(r, [][]byte{respSeed, toolSeed})), false, "mutated")
 		xlateCase(c, tr, mutate(r, streamSeed), true, "mutated")
 		c.Count("xlate.mutated")
+		for k := 0; k < 4; k++ {
+			xlateCase(c, tr, genStream(r), true, "generated")
+			c.Count("xlate.generated")
+		}
+		if r.Chance(1, 4) {
+			xlateCase(c, tr, streamSeed, true, "seed")
+		}
 	}
 	// relays through the running stack: error bodies and success bodies of every size and shape
 	type rb struct {
